@@ -18,6 +18,7 @@ import (
 	"flag"
 	"fmt"
 	"math/big"
+	"math/rand"
 	"os"
 	"os/exec"
 	"path/filepath"
@@ -261,6 +262,10 @@ func stateOnDisk(root common.Hash) (ok bool) {
 	return it.Error() == nil
 }
 
+// skipApi: the exported height lookups are not called for this projection (a reader scenario needs
+// the height cache untouched between the restart and the call the reader races with).
+var skipApi bool
+
 func project() map[string]interface{} {
 	chain := core.GetBlockChain()
 	pool := service.GetTransactionPool()
@@ -286,8 +291,15 @@ func project() map[string]interface{} {
 	api := make([]int, maxH+2)
 	apiHash := make([]int, maxH+2)
 	vidx := make([]bool, maxH+2)
+	cache := make([]int, maxH+2)
 	for h := 0; h <= maxH+1; h++ {
+		cache[h] = cacheEntry(uint64(h))
 		hidx[h] = idOfHeader(core.VerifRawHeightHeader(uint64(h)))
+		if skipApi {
+			api[h], apiHash[h] = none, none
+			vidx[h] = core.VerifHasVerifyHash(uint64(h))
+			continue
+		}
 		if b := chain.QueryBlock(uint64(h)); b != nil {
 			api[h] = idOfHeader(b.Header)
 		} else {
@@ -307,6 +319,8 @@ func project() map[string]interface{} {
 	st["apiBlock"] = api
 	st["apiHash"] = apiHash
 	st["vidx"] = vidx
+	st["cache"] = cache
+	st["apiSkipped"] = skipApi
 	am, rm := core.VerifBlockMarks()
 	st["addMark"] = am
 	st["rmMark"] = rm
@@ -323,6 +337,113 @@ func project() map[string]interface{} {
 	st["executed"] = executed
 	st["pending"] = pending
 	return st
+}
+
+// cacheEntry: what the LRU in front of the height index holds for h: a block id, none (99) for a
+// cached "no block", 97 when there is no entry.
+func cacheEntry(h uint64) int {
+	hd, present := core.VerifCachedHeightHeader(h)
+	if !present {
+		return 97
+	}
+	return idOfHeader(hd)
+}
+
+// pausingDB holds ONE lookup of one key between its store read and its return.
+type pausingDB struct {
+	db.Database
+	key     []byte
+	armed   bool
+	reached chan struct{}
+	release chan struct{}
+}
+
+func (p *pausingDB) Get(k []byte) ([]byte, error) {
+	v, err := p.Database.Get(k)
+	if p.armed && bytes.Equal(k, p.key) {
+		p.armed = false
+		close(p.reached)
+		<-p.release
+	}
+	return v, err
+}
+
+// readerSpec places one lock-free height lookup (GetBlockHash(h), as the rpc layer, the sync
+// helper and the contract executor issue them) relative to the store writes of call At: its
+// store read happens right before the K1-th write of the call (0 = before the call starts), its
+// return right before the K2-th write (K2 > writes of the call = after the call returned).
+type readerSpec struct {
+	At, H, K1, K2 int
+}
+
+type readerCtl struct {
+	spec    readerSpec
+	p       *pausingDB
+	started bool
+	paused  bool
+	doneCh  chan int
+	val     int
+	done    bool
+}
+
+func newReaderCtl(spec readerSpec) *readerCtl {
+	rc := &readerCtl{spec: spec, val: -1}
+	core.VerifWrapHeightDB(func(d db.Database) db.Database {
+		rc.p = &pausingDB{Database: d}
+		return rc.p
+	})
+	return rc
+}
+
+func (rc *readerCtl) start() {
+	if rc.started {
+		return
+	}
+	rc.started = true
+	key := make([]byte, 8)
+	for i := 0; i < 8; i++ {
+		key[7-i] = byte(uint64(rc.spec.H) >> (8 * uint(i)))
+	}
+	rc.p.key, rc.p.reached, rc.p.release = key, make(chan struct{}), make(chan struct{})
+	rc.p.armed = true
+	rc.doneCh = make(chan int, 1)
+	go func() {
+		gh := core.GetBlockChain().GetBlockHash(uint64(rc.spec.H))
+		id, ok := hashId[gh]
+		if !ok {
+			id = none
+		}
+		rc.doneCh <- id
+	}()
+	select {
+	case <-rc.p.reached:
+		rc.paused = true
+	case v := <-rc.doneCh: // answered from the cache, the store was not read
+		rc.p.armed = false
+		rc.val, rc.done = v, true
+	case <-time.After(20 * time.Second):
+		vutil.Fatalf("reader neither paused nor returned")
+	}
+}
+
+func (rc *readerCtl) finish() {
+	if !rc.started {
+		rc.start()
+	}
+	if rc.done {
+		return
+	}
+	close(rc.p.release)
+	select {
+	case v := <-rc.doneCh:
+		rc.val, rc.done = v, true
+	case <-time.After(20 * time.Second):
+		vutil.Fatalf("reader did not return")
+	}
+}
+
+func (rc *readerCtl) event() map[string]interface{} {
+	return map[string]interface{}{"h": rc.spec.H, "k1": rc.spec.K1, "k2": rc.spec.K2, "paused": rc.paused, "val": rc.val}
 }
 
 var resNames = map[types.AddBlockResult]string{
@@ -362,13 +483,28 @@ func treeEvent(sc *scenario) map[string]interface{} {
 }
 
 // deliveries runs order[from:], arming the crash hook when crashAt > 0.
-func deliveries(tr *vutil.Trace, sc *scenario, from int, crashAt int) {
+func deliveries(tr *vutil.Trace, sc *scenario, from int, crashAt int, rspec *readerSpec, stopAt int) {
 	chain := core.GetBlockChain()
 	count := 0
 	var cur, curIdx, curA int
+	callStart := 0
 	curK := "D"
+	var rc *readerCtl
+	if rspec != nil {
+		rc = newReaderCtl(*rspec)
+	}
 	db.VerifOnWrite = func(op string, key []byte, size int) {
 		count++
+		if rc != nil && curIdx == rc.spec.At {
+			if k := count - callStart; k >= 1 {
+				if k == rc.spec.K1 {
+					rc.start()
+				}
+				if k == rc.spec.K2 {
+					rc.finish()
+				}
+			}
+		}
 		if crashAt > 0 && count == crashAt {
 			tr.Emit(map[string]interface{}{"event": "Crash", "b": cur, "a": curA, "kind": curK, "idx": curIdx, "k": count, "op": op, "phase": "deliver"})
 			tr.Close()
@@ -379,7 +515,7 @@ func deliveries(tr *vutil.Trace, sc *scenario, from int, crashAt int) {
 	// blocks by height while blocks are being added and removed
 	stopReaders := make(chan struct{})
 	var readers sync.WaitGroup
-	if crashAt == 0 {
+	if crashAt == 0 && rspec == nil {
 		for g := 0; g < 2; g++ {
 			readers.Add(1)
 			go func() {
@@ -403,9 +539,23 @@ func deliveries(tr *vutil.Trace, sc *scenario, from int, crashAt int) {
 		readers.Wait()
 	}()
 	for i := from; i < len(sc.Order); i++ {
+		if stopAt > 0 && i == stopAt {
+			// a clean stop at a quiescent point; the restart is a fresh process
+			db.VerifOnWrite = nil
+			tr.Emit(map[string]interface{}{"event": "Stop", "idx": i})
+			return
+		}
 		op := sc.Order[i]
 		cur, curIdx, curK, curA = op.B, i, op.K, op.A
 		before := count
+		callStart = count
+		withReader := rc != nil && i == rc.spec.At
+		if withReader && rc.spec.K1 == 0 {
+			rc.start()
+			if rc.spec.K2 == 0 {
+				rc.finish()
+			}
+		}
 		if op.K == "F" {
 			// path a -> ... -> b
 			path := []int{}
@@ -424,8 +574,14 @@ func deliveries(tr *vutil.Trace, sc *scenario, from int, crashAt int) {
 			if chain.HasBlockByHash(blocks[op.A].Header.Hash) {
 				ok = core.VerifForkSwitch(copyBlock(blocks[op.A]), branch)
 			}
-			tr.Emit(map[string]interface{}{"event": "Fork", "a": op.A, "b": op.B, "idx": i, "ok": ok, "writes": count - before,
-				"state": project()})
+			fev := map[string]interface{}{"event": "Fork", "a": op.A, "b": op.B, "idx": i, "ok": ok, "writes": count - before}
+			if withReader {
+				curIdx = -1
+				rc.finish()
+				fev["reader"] = rc.event()
+			}
+			fev["state"] = project()
+			tr.Emit(fev)
 			continue
 		}
 		// the transactions of the block reach the pool before the block does
@@ -438,8 +594,14 @@ func deliveries(tr *vutil.Trace, sc *scenario, from int, crashAt int) {
 		if !ok {
 			name = fmt.Sprintf("code%d", res)
 		}
-		tr.Emit(map[string]interface{}{"event": "Deliver", "b": cur, "idx": i, "res": name, "writes": count - before,
-			"state": project()})
+		ev := map[string]interface{}{"event": "Deliver", "b": cur, "idx": i, "res": name, "writes": count - before}
+		if withReader {
+			curIdx = -1
+			rc.finish() // a reader placed after the last write of the call
+			ev["reader"] = rc.event()
+		}
+		ev["state"] = project()
+		tr.Emit(ev)
 	}
 	db.VerifOnWrite = nil
 	tr.Emit(map[string]interface{}{"event": "End", "writes": count})
@@ -451,6 +613,7 @@ func childRun(args []string) {
 	scen := fs.String("scen", "", "")
 	out := fs.String("out", "", "")
 	crashAt := fs.Int("crash-at", 0, "")
+	stopAt := fs.Int("stop-at", 0, "stop cleanly before delivery i")
 	fs.Parse(args)
 	sc := loadScenario(*scen)
 	outAbs, _ := filepath.Abs(*out)
@@ -462,7 +625,7 @@ func childRun(args []string) {
 	ev["event"] = "Reset"
 	ev["state"] = project()
 	tr.Emit(ev)
-	deliveries(tr, sc, 0, *crashAt)
+	deliveries(tr, sc, 0, *crashAt, nil, *stopAt)
 	tr.Close()
 }
 
@@ -473,7 +636,15 @@ func childReopen(args []string) {
 	out := fs.String("out", "", "")
 	from := fs.Int("from", 0, "")
 	crashAt := fs.Int("crash-at", 0, "crash before the k-th store write of the recovery")
+	reader := fs.String("reader", "", "h,k1,k2: a lock-free height lookup placed inside the first delivery after the restart")
 	fs.Parse(args)
+	var rspec *readerSpec
+	if *reader != "" {
+		rspec = &readerSpec{At: *from}
+		if _, err := fmt.Sscanf(*reader, "%d,%d,%d", &rspec.H, &rspec.K1, &rspec.K2); err != nil {
+			vutil.Fatalf("bad --reader: %v", err)
+		}
+	}
 	sc := loadScenario(*scen)
 	outAbs, _ := filepath.Abs(*out)
 	tr := vutil.NewTrace(outAbs)
@@ -492,8 +663,10 @@ func childReopen(args []string) {
 	vutil.BootChain(*dir, nil) // the restart: initBlockChain runs ensureChainConsistency
 	db.VerifOnWrite = nil
 	buildTree(sc)
+	skipApi = rspec != nil
 	tr.Emit(map[string]interface{}{"event": "Restart", "state": project()})
-	deliveries(tr, sc, *from, 0)
+	skipApi = false
+	deliveries(tr, sc, *from, 0, rspec, 0)
 	tr.Close()
 }
 
@@ -541,6 +714,16 @@ func runChild(self string, args ...string) (code int, detail string, harness boo
 	return ee.ExitCode(), "exit " + fmt.Sprint(ee.ExitCode()) + ": " + out[max(0, len(out)-200):], false
 }
 
+func maxHOf(sc *scenario) int {
+	m := 0
+	for _, b := range sc.Tree {
+		if b.Height > m {
+			m = b.Height
+		}
+	}
+	return m
+}
+
 func max(a, b int) int {
 	if a > b {
 		return a
@@ -567,6 +750,8 @@ func batch(args []string) {
 	scratch := fs.String("scratch", "", "")
 	crash := fs.String("crash", "none", "none | all (every store write of every delivery) | double (also a second crash inside recovery)")
 	par := fs.Int("par", 16, "parallel children")
+	readerBudget := fs.Int("reader-budget", 40, "reader mode: placements tried per (scenario, restart point)")
+	seed := fs.Int64("seed", 1, "reader mode: sampling seed")
 	fs.Parse(args)
 	self, _ := os.Executable()
 	b, err := os.ReadFile(*scen)
@@ -683,6 +868,88 @@ func batch(args []string) {
 			emit(lines)
 			os.RemoveAll(d0)
 			if *crash == "none" {
+				return
+			}
+			if *crash == "reader" {
+				// a clean stop before delivery i, a restart (the head height is then not in the height
+				// cache), and delivery i with one lock-free height lookup whose store read and return
+				// are placed before chosen store writes of that call
+				type dl struct {
+					Event  string `json:"event"`
+					Idx    int    `json:"idx"`
+					Writes int    `json:"writes"`
+				}
+				writesOf := map[int]int{}
+				for _, l := range lines {
+					var d dl
+					if json.Unmarshal(l, &d) == nil && (d.Event == "Deliver" || d.Event == "Fork") {
+						writesOf[d.Idx] = d.Writes
+					}
+				}
+				rng := rand.New(rand.NewSource(*seed*7919 + int64(n)))
+				for i := 1; i < len(sc.Order); i++ {
+					w := writesOf[i]
+					ds := filepath.Join(base, fmt.Sprintf("stop%02d", i))
+					ts := filepath.Join(base, fmt.Sprintf("stop%02d.ndjson", i))
+					if code, _, harness := runChild(self, "run", "--dir", ds, "--scen", sp, "--out", ts, "--stop-at", fmt.Sprint(i)); harness || code != 0 {
+						fail()
+						os.RemoveAll(ds)
+						continue
+					}
+					l1 := readLines(ts)
+					type placement struct{ h, k1, k2 int }
+					var all []placement
+					for h := 0; h <= maxHOf(&sc)+1; h++ {
+						for k1 := 0; k1 <= w+1; k1++ {
+							for k2 := k1; k2 <= w+1; k2++ {
+								all = append(all, placement{h, k1, k2})
+							}
+						}
+					}
+					rng.Shuffle(len(all), func(a, b int) { all[a], all[b] = all[b], all[a] })
+					// the lookups that straddle the whole call (read before it, return after it) always
+					// come first, then those that straddle its head or its tail, then the sample
+					rank := make(map[placement]int, len(all))
+					for _, p := range all {
+						switch {
+						case p.k1 == 0 && p.k2 == w+1:
+							rank[p] = 0
+						case p.k1 == 0 || p.k2 == w+1:
+							rank[p] = 1 + rng.Intn(3)
+						default:
+							rank[p] = 3
+						}
+					}
+					sort.SliceStable(all, func(a, b int) bool { return rank[all[a]] < rank[all[b]] })
+					if len(all) > *readerBudget {
+						all = all[:*readerBudget]
+					}
+					for j, pl := range all {
+						dj := filepath.Join(base, fmt.Sprintf("stop%02d-r%03d", i, j))
+						if err := exec.Command("cp", "-r", ds, dj).Run(); err != nil {
+							vutil.Fatalf("cp: %v", err)
+						}
+						tj := filepath.Join(base, fmt.Sprintf("stop%02d-r%03d.ndjson", i, j))
+						code, detail, harness := runChild(self, "reopen", "--dir", dj, "--scen", sp, "--out", tj, "--from", fmt.Sprint(i),
+							"--reader", fmt.Sprintf("%d,%d,%d", pl.h, pl.k1, pl.k2))
+						if harness {
+							fail()
+							os.RemoveAll(dj)
+							continue
+						}
+						l2 := readLines(tj)
+						if code != 0 {
+							l2 = append(l2, died("deliver", detail, l2))
+						}
+						emit(append(append([][]byte{}, l1...), l2...))
+						mu.Lock()
+						nCrash++
+						mu.Unlock()
+						os.RemoveAll(dj)
+					}
+					os.RemoveAll(ds)
+				}
+				os.RemoveAll(base)
 				return
 			}
 			var end struct {
